@@ -9,7 +9,7 @@ C04_OPS = ["ctor_default", "ctor_ext", "ctor_fill", "ctor_iota", "ctor_view", "d
            "ctor_ref", "ctor_other", "ctor_il", "assign_copy", "assign_move", "assign_other", "assign_il", "swap",
            "assign_view", "self_assign", "write", "write_last", "destroy"]
 C06_OPS = ["reextent", "reextent_fill", "reextent_move", "clear", "assign_empty", "reshape", "assign_range"]
-MOVES = {"ctor_move", "assign_move"}
+MOVES = {"ctor_move", "assign_move", "ctor_move_al"}
 
 
 def hline(pid, rec, nslots):
@@ -45,6 +45,10 @@ def compare(exp, o, check_first=True, pattern=False):
             continue
         if not e["live"]:
             continue
+        if exp.get("check_alloc") and "al" in a and a["al"] != exp["alloc"][k]:
+            bad.append(("allocator[%d]" % k, exp["alloc"][k], a["al"]))
+        if e["shape"] == [-1]:
+            continue        # valid but unspecified (source of an element-wise move)
         ne = 1
         for s in e["shape"]:
             ne *= s
@@ -71,14 +75,19 @@ def compare(exp, o, check_first=True, pattern=False):
         bad.append(("storage_shared", True, o.get("disjoint")))
     last = exp["hist"][-1]
     lj = o.get("last", {})
-    if last["op"] in MOVES and lj.get("moved_ne", 0) > 0 and lj.get("same_data") is not True:
-        bad.append(("move_did_not_transfer_storage", True, lj.get("same_data")))
+    if last["op"] in MOVES and lj.get("moved_ne", 0) > 0:
+        src = exp["arrays"][last["t"] - 1]
+        if src["shape"] == [-1]:
+            if lj.get("same_data") is not False:
+                bad.append(("move_handed_block_to_unequal_allocator", False, lj.get("same_data")))
+        elif lj.get("same_data") is not True:
+            bad.append(("move_did_not_transfer_storage", True, lj.get("same_data")))
     if lj.get("same_extents") and lj.get("same_data") is not True:
         bad.append(("reextent_same_extents_moved_storage", True, lj.get("same_data")))
     return bad
 
 
-def run_config(rep, prop, name, constants, exe, wd, nslots, sim=None, check_first=True, sig_extra=None, timeout=1500, trace=False, faults=False, pattern=False, judge_values=True):
+def run_config(rep, prop, name, constants, exe, wd, nslots, sim=None, check_first=True, sig_extra=None, timeout=1500, trace=False, faults=False, pattern=False, judge_values=True, check_alloc=False):
     cfg = os.path.join(wd, name + ".cfg")
     vlib.write_cfg(cfg, spec="ASpec", constants=constants, invariants=["ATypeOK"], properties=["Independence"], view="AVW",
                    constraints=["AEmitC"])
@@ -93,6 +102,7 @@ def run_config(rep, prop, name, constants, exe, wd, nslots, sim=None, check_firs
         if k in seen:
             continue
         seen.add(k)
+        rec["check_alloc"] = check_alloc
         exps.append(rec)
         lines.append(hline(len(exps) - 1, rec, nslots))
     if not exps:
@@ -146,9 +156,9 @@ def run_config(rep, prop, name, constants, exe, wd, nslots, sim=None, check_firs
     return traces
 
 
-def build(wd, kind, name=None):
+def build(wd, kind, name=None, extra_flags=()):
     exe = os.path.join(wd, name or ("replay_arrays_%d" % kind))
-    ok, text = vlib.compile_cpp(os.path.join(vlib.HARNESS, "replay_arrays.cpp"), exe, flags=["-DVERIF_ELEM_KIND=%d" % kind])
+    ok, text = vlib.compile_cpp(os.path.join(vlib.HARNESS, "replay_arrays.cpp"), exe, flags=["-DVERIF_ELEM_KIND=%d" % kind] + list(extra_flags))
     if not ok:
         raise vlib.Broken("replay_arrays.cpp (element kind %d) does not compile:\n%s" % (kind, text[-3000:]))
     return exe
